@@ -70,11 +70,15 @@ type World struct {
 
 	faults      map[string][]*FaultSpec // by op|target
 	opCount     map[string]int
+	delayCount  map[string]int // guarded by latMu
+	delaysFired int
 	FaultsFired map[string]int
-	restore     *pendingRestore
-	curExec     *kernel.Event
-	latCount    map[string]int
-	latMu       sync.Mutex
+	// MemberYields: park at the curve.member yield point (between the member evaluations of a function curve)
+	MemberYields bool
+	restore      *pendingRestore
+	curExec      *kernel.Event
+	latCount     map[string]int
+	latMu        sync.Mutex
 
 	sigMu    sync.Mutex
 	sigChans []chan os.Signal
@@ -125,7 +129,7 @@ func New(sc *Scenario, k *kernel.Kernel) (*World, error) {
 		Sc: sc, K: k, Dir: dir,
 		Fans: map[string]*FanState{}, Sensors: map[string]*SensorState{},
 		paths: map[string]*Target{}, exes: map[string]*Target{},
-		faults: map[string][]*FaultSpec{}, opCount: map[string]int{},
+		faults: map[string][]*FaultSpec{}, opCount: map[string]int{}, delayCount: map[string]int{},
 		FaultsFired: map[string]int{}, latCount: map[string]int{},
 	}
 	w.hwRoot = filepath.Join(dir, "hw")
@@ -504,7 +508,7 @@ func (w *World) nextFault(op string, tg *Target, flags kernel.Flags) *FaultSpec 
 	var hit *FaultSpec
 	cur := map[string]int{}
 	for _, ft := range fl {
-		if !flagMatch(ft, flags) {
+		if !flagMatch(ft, flags) || strings.HasPrefix(ft.Kind, "delay:") {
 			continue
 		}
 		ckey := key + "|" + ft.OnlyFlags
@@ -528,6 +532,41 @@ func (w *World) nextFault(op string, tg *Target, flags kernel.Flags) *FaultSpec 
 	return hit
 }
 
+// DelaysFired is the number of delay faults that took effect.
+func (w *World) DelaysFired() int { w.latMu.Lock(); defer w.latMu.Unlock(); return w.delaysFired }
+
+// delayFault: faults of kind "delay:<ms>" do not fail the operation, they make it take that long
+// (a hanging driver, a suspended machine): the virtual time passes before the operation is performed.
+func (w *World) delayFault(op string, tg *Target, flags kernel.Flags) time.Duration {
+	if tg == nil {
+		return 0
+	}
+	key := op + "|" + tg.Name
+	var d time.Duration
+	cur := map[string]int{}
+	w.latMu.Lock() // called before the operation parks, i.e. outside the kernel's serialisation
+	defer w.latMu.Unlock()
+	for _, ft := range w.faults[key] {
+		if !strings.HasPrefix(ft.Kind, "delay:") || !flagMatch(ft, flags) {
+			continue
+		}
+		ckey := key + "|delay|" + ft.OnlyFlags
+		n, ok := cur[ckey]
+		if !ok {
+			n = w.delayCount[ckey]
+			cur[ckey] = n
+			w.delayCount[ckey] = n + 1
+		}
+		cnt := max(ft.Count, 1)
+		if n >= ft.Nth && n < ft.Nth+cnt && d == 0 {
+			ms, _ := strconv.Atoi(ft.Kind[len("delay:"):])
+			d = time.Duration(ms) * time.Millisecond
+			w.delaysFired++
+		}
+	}
+	return d
+}
+
 var ErrInjectedEIO = &os.PathError{Op: "read", Path: "(injected)", Err: syscall.EIO}
 
 func injectedErr(op, path string, errno syscall.Errno) error {
@@ -548,6 +587,9 @@ func (w *World) BeforeRead(path string) error {
 	}
 	if lat := w.latency("r|" + w.K.Rel(path)); lat > 0 {
 		time.Sleep(lat)
+	}
+	if d := w.delayFault("read", w.paths[path], ev.Flags); d > 0 {
+		time.Sleep(d)
 	}
 	w.K.Park(ev, nil)
 	tg := w.paths[path]
@@ -866,6 +908,10 @@ func (w *World) AfterExec(executable string, args []string, out string, err erro
 
 func (w *World) Yield(site string, id string) {
 	if w.FreeRun {
+		return
+	}
+	if site == "curve.member" && !w.MemberYields {
+		// a seam only for families that explore concurrent evaluations of one curve graph
 		return
 	}
 	ev := kernel.NewEvent("yield", site, id, 2)
